@@ -326,3 +326,38 @@ class FaultInjector:
         mon = sys.monitoring
         mon.register_callback(self.TOOL, mon.events.LINE, None)
         mon.free_tool_id(self.TOOL)
+
+
+class YieldInjector:
+    """sys.monitoring LINE callback that performs a seeded time.sleep(0) with probability p at statement boundaries of
+    the chosen code objects: every statement boundary becomes a likely preemption point (never a place where the
+    interpreter could not switch threads anyway)."""
+
+    TOOL = 4
+
+    def __init__(self, codes, seed=0, p=0.3):
+        import random
+        import time
+
+        self.codes, self.p, self.rng, self.count, self._sleep = codes, p, random.Random(seed), 0, time.sleep
+        mon = sys.monitoring
+        mon.use_tool_id(self.TOOL, "vf-yield")
+        mon.register_callback(self.TOOL, mon.events.LINE, self._on_line)
+
+    def _on_line(self, code, line):
+        if self.rng.random() < self.p:
+            self.count += 1
+            self._sleep(0)
+
+    def on(self):
+        for c in self.codes:
+            sys.monitoring.set_local_events(self.TOOL, c, sys.monitoring.events.LINE)
+
+    def off(self):
+        for c in self.codes:
+            sys.monitoring.set_local_events(self.TOOL, c, 0)
+
+    def close(self):
+        self.off()
+        sys.monitoring.register_callback(self.TOOL, sys.monitoring.events.LINE, None)
+        sys.monitoring.free_tool_id(self.TOOL)
